@@ -1,6 +1,885 @@
-//! C11 — not built yet.
-use crate::core::Ctx;
+//! C11 — exp, exp_m1, ln, ln_1p, powi, powf return a value within 1 ulp (at precision p) of the
+//! true real result and flag it Exact only if it is exact; unlimited precision is refused by panic.
+//! Oracle: rigorous enclosures with exact rational end points (h11.rs, refined until every
+//! comparison is decided); powi by exact rational powers.
+
+#[path = "h11.rs"]
+mod h11;
+
+use crate::core::{guard, is_internal_panic, panic_class, Ctx, Rec};
+use crate::for_all_modes;
+use crate::fref::*;
+use crate::h::unflatten;
+use crate::uni::ref_to_i;
+use dashu_base::Approximation;
+use dashu_float::round::Rounding;
+use dashu_float::{Context, FBig, Repr};
+use dashu_int::Word;
+use h11::{Func, Real};
+use num_bigint::BigInt;
+use num_traits::{One, Zero};
+use std::cmp::Ordering;
+
+const P: &str = "C11";
+
+type Rounded<R, const B: Word> = Approximation<FBig<R, B>, Rounding>;
+
+struct Val<const B: Word> {
+    s: BigInt,
+    e: i64,
+    digits: usize,
+    rat: Rat,
+    repr: Repr<B>,
+    /// "" for the closed universes, "tiny"/"huge" for the extreme arguments
+    tag: &'static str,
+}
+
+fn mk_val<const B: Word>(s: &BigInt, e: i64, tag: &'static str) -> Val<B> {
+    // normalise: no trailing zero digit in the significand
+    let (mut s, mut e) = (s.clone(), e);
+    let b = BigInt::from(B as u32);
+    while !s.is_zero() && (&s % &b).is_zero() {
+        s /= &b;
+        e += 1;
+    }
+    if s.is_zero() {
+        e = 0;
+    }
+    Val { digits: digits_b(&s, B as u32), rat: Rat::scaled(&s, B as u32, e), repr: mk_repr::<B>(&s, e), s, e, tag }
+}
+
+/// distinct values, first occurrence kept
+fn vals<const B: Word>(u: &[(BigInt, i64)], tag: &'static str) -> Vec<Val<B>> {
+    let mut seen = std::collections::BTreeSet::new();
+    let mut out = vec![];
+    for (s, e) in u {
+        let v = mk_val::<B>(s, *e, tag);
+        if seen.insert((v.s.clone(), v.e)) {
+            out.push(v);
+        }
+    }
+    out
+}
+
+/// F(B,fp,fe) ∪ {±B^-k, 1 ± B^-k, -1 + B^-k : k <= near} ∪ {±d·B^j : d = 1..9, j = 1, 2}
+fn x_universe(base: u32, fp: u32, fe: i64, near: i64) -> Vec<(BigInt, i64)> {
+    let mut u = f_universe(base, fp, fe);
+    for k in 1..=near {
+        let bk = pow_b(base, k as u64);
+        u.push((BigInt::one(), -k));
+        u.push((-BigInt::one(), -k));
+        u.push((&bk + 1, -k));
+        u.push((&bk - 1, -k));
+        u.push((BigInt::one() - &bk, -k)); // next to the edge -1 of the domain of ln_1p
+    }
+    for j in 1..=2 {
+        for d in 1..=9 {
+            u.push((BigInt::from(d), j));
+            u.push((BigInt::from(-d), j));
+        }
+    }
+    u
+}
+
+fn pbucket(p: usize) -> &'static str {
+    match p {
+        0 => "p0",
+        1..=3 => "p1-3",
+        4..=8 => "p4-8",
+        9..=33 => "p9-33",
+        _ => "p>33",
+    }
+}
+
+fn xclass<const B: Word>(v: &Val<B>, p: usize) -> &'static str {
+    if !v.tag.is_empty() {
+        v.tag
+    } else if p == 0 || v.digits <= p {
+        "x-fit"
+    } else {
+        "x-long"
+    }
+}
+
+fn sig(site: &str, kind: &str, base: Word, mode: Mode, p: usize, extra: &str, xc: &str) -> String {
+    let mut s = format!("{}|{}|{}|B{},{},{}", P, site, kind, base, if mode.is_half() { "half" } else { "directed" }, pbucket(p));
+    if !extra.is_empty() {
+        s.push(',');
+        s.push_str(extra);
+    }
+    s.push(',');
+    s.push_str(xc);
+    s
+}
+
+/// working precision (bits) of the first enclosure level for a list of precisions
+fn w0_for(base: u32, precs: &[usize]) -> u64 {
+    let pmax = precs.iter().copied().max().unwrap_or(1).max(1) as f64;
+    (pmax * (base as f64).log2()).ceil() as u64 + 64
+}
+
+/// The C11 contract on one (value, flag): |r - x| < ulp_p(x), Exact only if r = x, at most p+1
+/// digits (the documented slack of `Repr`), nothing at precision 0 unless exact.
+/// Returns the violated clauses as (kind, extra class, explanation).
+fn judge11(x: &Real, r: &FVal, flag: Flag, p: usize, mode: Mode, rec: &mut Rec) -> Vec<(&'static str, &'static str, String)> {
+    let mut out = vec![];
+    let rv = h11::scaled_raw(&r.sig, r.base, r.exp);
+    let c = x.cmp_rat(&rv); // x ? r
+    if x.undecided() {
+        return out;
+    }
+    if c == Ordering::Equal {
+        match flag {
+            Flag::Exact => rec.hit("exact-value:flag-exact"),
+            Flag::Inexact(_) => rec.hit("unspecified:exact-value-flagged-inexact"),
+        }
+        return out;
+    }
+    if flag == Flag::Exact {
+        out.push(("flag-exact-but-inexact", "", format!("result {} is flagged Exact but differs from the true value {}", r.show(), x.describe())));
+    }
+    if p == 0 {
+        out.push(("inexact-at-unlimited-precision", "", format!("result {} differs from {} at precision 0", r.show(), x.describe())));
+        return out;
+    }
+    if x.is_zero() {
+        out.push(("nonzero-for-zero", "", format!("true value is 0, result {}", r.show())));
+        return out;
+    }
+    let e = x.floor_log(r.base);
+    if x.undecided() {
+        return out;
+    }
+    let q = e - p as i64 + 1; // ulp = base^q
+    let r_above = c == Ordering::Less;
+    // is |r - x| >= k/2 ulp ?  (r -+ k/2 ulp = (2 sig B^(re-m) -+ k B^(q-m)) B^m / 2, m = min(re, q); no gcd)
+    let m = r.exp.min(q);
+    let two_r = &r.sig * pow_b(r.base, (r.exp - m) as u64) * 2;
+    let u = pow_b(r.base, (q - m) as u64);
+    let far = |k: i64| -> bool {
+        let num = if r_above { &two_r - &u * k } else { &two_r + &u * k };
+        let mut b = h11::scaled_raw(&num, r.base, m);
+        b.d *= 2;
+        if r_above {
+            x.cmp_rat(&b) != Ordering::Greater
+        } else {
+            x.cmp_rat(&b) != Ordering::Less
+        }
+    };
+    if far(2) {
+        let bucket = if far(4) {
+            ">=2ulp"
+        } else if far(3) {
+            "[1.5,2)ulp"
+        } else {
+            "[1,1.5)ulp"
+        };
+        out.push(("error>=1ulp", bucket, format!("result {} (~{}), true value {}, ulp = {}^{}: error {}", r.show(), h11::approx(&rv), x.describe(), r.base, q, bucket)));
+    } else {
+        rec.hit("within-1ulp");
+        // informational only: is it also the correctly rounded value of the mode?
+        let x_pos = x.cmp_rat(&Rat::zero()) == Ordering::Greater;
+        let cr = match mode {
+            Mode::Up => r_above,
+            Mode::Down => !r_above,
+            Mode::Zero => r_above != x_pos,
+            Mode::Away => r_above == x_pos,
+            _ => !far(1),
+        };
+        rec.hit(if cr { "info:correctly-rounded" } else { "info:faithful-but-not-correctly-rounded" });
+    }
+    match flag {
+        Flag::Inexact(Rounding::AddOne) if !r_above => rec.hit("unspecified:flag-AddOne-but-result-below"),
+        Flag::Inexact(Rounding::SubOne) if r_above => rec.hit("unspecified:flag-SubOne-but-result-above"),
+        _ => {}
+    }
+    let d = r.digits();
+    if d > p + 1 {
+        out.push(("too-many-digits", "", format!("result {} has {} significant digits at precision {}", r.show(), d, p)));
+    } else if d == p + 1 {
+        rec.hit("info:result-has-p+1-digits");
+    }
+    out
+}
+
+fn parts<R: ModeTag, const B: Word>(a: &Rounded<R, B>) -> (&FBig<R, B>, Flag) {
+    match a {
+        Approximation::Exact(v) => (v, Flag::Exact),
+        Approximation::Inexact(v, r) => (v, Flag::Inexact(*r)),
+    }
+}
+
+/// judge one result of a dashu call against the exact real x
+#[allow(clippy::too_many_arguments)]
+fn check_res<R: ModeTag, const B: Word>(rec: &mut Rec, site: &str, x: &Real, case: &dyn Fn() -> String, p: usize, xc: &str, got: &Result<Rounded<R, B>, String>) {
+    rec.step();
+    match got {
+        Ok(a) => {
+            let (v, flag) = parts(a);
+            if v.repr().is_infinite() {
+                rec.fail(sig(site, "infinite-result", B, R::MODE, p, "", xc), case(), "infinite", x.describe());
+                return;
+            }
+            let r = fval(v.repr());
+            let errs = judge11(x, &r, flag, p, R::MODE, rec);
+            if x.undecided() {
+                rec.hit("machinery:undecided");
+                return;
+            }
+            for (kind, extra, why) in errs {
+                // one root cause (the flag of the last rounding step is reported): one signature per call site and base
+                let sg = if kind == "flag-exact-but-inexact" { format!("{}|{}|{}|B{}", P, site, kind, B) } else { sig(site, kind, B, R::MODE, p, extra, xc) };
+                rec.fail(sg, case(), format!("{} flag {:?}: {}", r.show(), flag, why), format!("a value within 1 ulp (precision {}) of {}, flagged Exact only if equal", p, x.describe()));
+            }
+            if v.precision() != p {
+                rec.hit("info:result-context-precision-differs");
+            }
+        }
+        Err(m) => {
+            if p == 0 && !is_internal_panic(m) && m.contains("precision cannot be 0") {
+                rec.hit("p0:refused-by-panic");
+                return;
+            }
+            let kind = if is_internal_panic(m) { "internal-panic" } else { "panic" };
+            rec.fail(format!("{}|{}|{}|B{},{},{},{}", P, site, kind, B, pbucket(p), xc, panic_class(m)), case(), format!("panic: {}", m), format!("a value within 1 ulp of {}", x.describe()));
+        }
+    }
+}
+
+/// (significand without trailing zero digits, exponent)
+fn norm(v: &FVal) -> (BigInt, i64) {
+    let (mut s, mut e) = (v.sig.clone(), v.exp);
+    if s.is_zero() {
+        return (s, 0);
+    }
+    let b = BigInt::from(v.base);
+    while (&s % &b).is_zero() {
+        s /= &b;
+        e += 1;
+    }
+    (s, e)
+}
+
+/// the FBig method must give the value of the Context method (same precision, same mode)
+fn agree<R: ModeTag, const B: Word>(rec: &mut Rec, site: &str, case: &dyn Fn() -> String, ctx_res: &Result<Rounded<R, B>, String>, fb: Result<FBig<R, B>, String>) {
+    rec.step();
+    let same = match (ctx_res, &fb) {
+        (Ok(a), Ok(y)) => {
+            let (x, _) = parts(a);
+            x.repr().is_infinite() == y.repr().is_infinite() && (x.repr().is_infinite() || norm(&fval(x.repr())) == norm(&fval(y.repr())))
+        }
+        (Err(_), Err(_)) => true,
+        _ => false,
+    };
+    if same {
+        rec.hit("fbig-method-agrees");
+    } else {
+        let show = |r: Result<String, String>| match r {
+            Ok(s) => s,
+            Err(m) => format!("panic: {}", m),
+        };
+        rec.fail(
+            format!("{}|{}|method-differs-from-context|B{},{}", P, site, B, R::MODE.name()),
+            case(),
+            show(fb.map(|v| fval(v.repr()).show())),
+            show(ctx_res.as_ref().map(|a| fval(parts(a).0.repr()).show()).map_err(|m| m.clone())),
+        );
+    }
+}
+
+// ---------------------------------------------------------------------------------------------
+// exp, exp_m1, ln, ln_1p
+
+const FUNCS: [Func; 4] = [Func::Exp, Func::Expm1, Func::Ln, Func::Ln1p];
+
+fn in_domain(f: Func, x: &Rat) -> bool {
+    match f {
+        Func::Ln => x.sgn() > 0,
+        Func::Ln1p => x.cmp(&Rat::from_i(-1)) == Ordering::Greater,
+        _ => true,
+    }
+}
+
+fn call_transc<R: ModeTag, const B: Word>(rec: &mut Rec, real: &Real, v: &Val<B>, f: Func, p: usize) {
+    let c = Context::<R>::new(p);
+    let site = format!("Context::{}", f.name());
+    let case = || format!("base {} p={} {}: {}({}e{})", B, p, R::MODE.name(), f.name(), v.s, v.e);
+    let got = guard(|| match f {
+        Func::Exp => c.exp(&v.repr),
+        Func::Expm1 => c.exp_m1(&v.repr),
+        Func::Ln => c.ln(&v.repr),
+        Func::Ln1p => c.ln_1p(&v.repr),
+        Func::Pow => unreachable!(),
+    });
+    check_res::<R, B>(rec, &site, real, &case, p, xclass(v, p), &got);
+    if p == 0 || v.digits <= p {
+        let fb = FBig::<R, B>::from_repr(v.repr.clone(), c);
+        let g2 = guard(|| match f {
+            Func::Exp => fb.exp(),
+            Func::Expm1 => fb.exp_m1(),
+            Func::Ln => fb.ln(),
+            Func::Ln1p => fb.ln_1p(),
+            Func::Pow => unreachable!(),
+        });
+        agree::<R, B>(rec, &format!("FBig::{}", f.name()), &case, &got, g2);
+    }
+}
+
+fn transc<const B: Word>(ctx: &mut Ctx, name: &str, va: &[Val<B>], precs: &[usize], required: &[&str]) {
+    let n = va.len() as u64 * FUNCS.len() as u64;
+    let w0 = w0_for(B as u32, precs);
+    let inv_b = Rat::new(BigInt::one(), BigInt::from(B as u32));
+    ctx.sweep(name, n, |i, rec| {
+        let [iv, ifn] = unflatten(i, [va.len() as u64, FUNCS.len() as u64]);
+        let (v, f) = (&va[iv], FUNCS[ifn]);
+        if !in_domain(f, &v.rat) {
+            rec.hit("skipped:outside-the-domain(C16)");
+            return;
+        }
+        let real = Real::new(f, v.rat.clone(), Rat::zero(), w0);
+        for &p in precs {
+            for_all_modes!(call_transc, B, (rec, &real, v, f, p));
+            rec.hit(if p == 0 {
+                "arg:p0"
+            } else if v.digits <= p {
+                "arg:x-fit"
+            } else {
+                "arg:x-long"
+            });
+        }
+        // designed classes of the argument (thresholds read out of exp.rs / log.rs)
+        let small = v.rat.abs().cmp(&inv_b) == Ordering::Less && !v.rat.is_zero();
+        match f {
+            Func::Exp => rec.hit(if v.rat.is_neg() { "exp:negative-argument" } else { "exp:non-negative-argument" }),
+            Func::Expm1 => rec.hit(if small {
+                if v.rat.is_neg() {
+                    "exp_m1:|x|<1/B,negative(series-without-scaling)"
+                } else {
+                    "exp_m1:|x|<1/B,positive(series-without-scaling)"
+                }
+            } else {
+                "exp_m1:|x|>=1/B(reduction+powering)"
+            }),
+            Func::Ln => {
+                let c1 = v.rat.cmp(&Rat::from_i(1));
+                rec.hit(if c1 == Ordering::Less { "ln:x<1(s<0,doubled-precision)" } else { "ln:x>=1" });
+                if v.rat.n.magnitude().count_ones() == 1 && v.rat.d.magnitude().count_ones() == 1 && B != 2 {
+                    rec.hit("ln:x-power-of-two(z=0)");
+                }
+            }
+            Func::Ln1p => rec.hit(if small { "ln_1p:|x|<1/B(series-without-scaling)" } else if v.rat.is_neg() { "ln_1p:-1<x<=-1/B" } else { "ln_1p:x>=1/B" }),
+            Func::Pow => {}
+        }
+        if real.exact().is_none() {
+            rec.nontrivial();
+            rec.hit(match real.deepest_level() {
+                0 => "refine:level0",
+                1 => "refine:level1",
+                _ => "refine:level2+",
+            });
+        }
+        rec.sample(|| {
+            let (lo, hi) = if real.exact().is_some() { (real.exact().unwrap().clone(), real.exact().unwrap().clone()) } else { real.enclosure(0) };
+            format!("base {} {}({}e{}) for p in {:?} x six modes; true value in [{}, {}]", B, f.name(), v.s, v.e, precs, h11::approx(&lo), h11::approx(&hi))
+        });
+    });
+    machinery_classes(ctx, name);
+    ctx.require_classes(name, required);
+}
+
+fn machinery_classes(ctx: &mut Ctx, name: &str) {
+    let und = ctx.sweeps.iter().find(|s| s.name == name).and_then(|s| s.classes.get("machinery:undecided").copied()).unwrap_or(0);
+    if und != 0 {
+        ctx.machinery(format!("sweep {}: {} comparisons could not be decided by the enclosures after {} refinements", name, und, h11::MAX_LEVEL));
+    }
+}
+
+const REQ_TRANSC: [&str; 17] = [
+    "within-1ulp",
+    "exact-value:flag-exact",
+    "p0:refused-by-panic",
+    "arg:x-fit",
+    "arg:x-long",
+    "fbig-method-agrees",
+    "skipped:outside-the-domain(C16)",
+    "exp:negative-argument",
+    "exp:non-negative-argument",
+    "exp_m1:|x|<1/B,negative(series-without-scaling)",
+    "exp_m1:|x|<1/B,positive(series-without-scaling)",
+    "exp_m1:|x|>=1/B(reduction+powering)",
+    "ln:x<1(s<0,doubled-precision)",
+    "ln:x>=1",
+    "ln_1p:|x|<1/B(series-without-scaling)",
+    "ln_1p:-1<x<=-1/B",
+    "ln_1p:x>=1/B",
+];
+
+/// tiny and huge arguments (relative accuracy of the enclosures is independent of the magnitude)
+fn extreme_vals<const B: Word>(quick: bool) -> Vec<Val<B>> {
+    let lb = (B as f64).log10();
+    let ex = |dec: f64| (dec / lb).ceil() as i64; // B^ex(dec) >= 10^dec
+    let mut u: Vec<Val<B>> = vec![];
+    for (d, e) in [(1i64, -1000i64), (-1, -1000), (1, -100), (-1, -100), (7, -41), (-7, -41), (1, -ex(9.0)), (-1, -ex(9.0))] {
+        u.push(mk_val::<B>(&BigInt::from(d), e, "tiny"));
+    }
+    let decs: &[f64] = if quick { &[3.0, 4.0] } else { &[3.0, 4.0, 5.0, 6.0] };
+    for &dec in decs {
+        let e = ex(dec);
+        u.push(mk_val::<B>(&BigInt::one(), e, "huge"));
+        u.push(mk_val::<B>(&-BigInt::one(), e, "huge"));
+        u.push(mk_val::<B>(&(pow_b(B as u32, 2) - 1), e - 2, "huge"));
+    }
+    // for ln / ln_1p only (exp of them is beyond every enclosure): B^100, B^1000
+    u.push(mk_val::<B>(&BigInt::one(), 100, "huge-log-only"));
+    u.push(mk_val::<B>(&BigInt::from(3), 1000, "huge-log-only"));
+    u
+}
+
+fn extreme<const B: Word>(ctx: &mut Ctx, precs: &[usize]) {
+    let va = extreme_vals::<B>(ctx.quick());
+    let name = format!("extreme.B{}", B);
+    let n = va.len() as u64 * FUNCS.len() as u64;
+    let w0 = w0_for(B as u32, precs);
+    ctx.sweep(&name, n, |i, rec| {
+        let [iv, ifn] = unflatten(i, [va.len() as u64, FUNCS.len() as u64]);
+        let (v, f) = (&va[iv], FUNCS[ifn]);
+        if !in_domain(f, &v.rat) {
+            rec.hit("skipped:outside-the-domain(C16)");
+            return;
+        }
+        if v.tag == "huge-log-only" && matches!(f, Func::Exp | Func::Expm1) {
+            rec.hit("skipped:exp-of-B^100-has-no-feasible-enclosure");
+            return;
+        }
+        let real = Real::new(f, v.rat.clone(), Rat::zero(), w0);
+        for &p in precs {
+            for_all_modes!(call_transc, B, (rec, &real, v, f, p));
+        }
+        rec.hit(if v.tag == "tiny" { "arg:tiny" } else { "arg:huge" });
+        rec.nontrivial();
+        rec.sample(|| {
+            let (lo, hi) = real.enclosure(0);
+            format!("base {} {}({}e{}) for p in {:?} x six modes; true value in [{}, {}]", B, f.name(), v.s, v.e, precs, h11::approx(&lo), h11::approx(&hi))
+        });
+    });
+    machinery_classes(ctx, &name);
+    ctx.require_classes(&name, &["within-1ulp", "arg:tiny", "arg:huge", "fbig-method-agrees"]);
+}
+
+// ---------------------------------------------------------------------------------------------
+// powi
+
+fn call_powi<R: ModeTag, const B: Word>(rec: &mut Rec, real: Option<&Real>, v: &Val<B>, e: i64, p: usize) {
+    let c = Context::<R>::new(p);
+    let case = || format!("base {} p={} {}: powi({}e{}, {})", B, p, R::MODE.name(), v.s, v.e, e);
+    let got = guard(|| c.powi(&v.repr, ref_to_i(&BigInt::from(e))));
+    let xc = if e < 0 { "negative-exponent" } else { "non-negative-exponent" };
+    match real {
+        None => {
+            // 0^negative: outside the mathematical domain, the documentation is silent
+            rec.step();
+            rec.hit(if got.is_err() { "unspecified:zero-to-negative-power-panics" } else { "unspecified:zero-to-negative-power-returns" });
+        }
+        Some(real) => {
+            if p == 0 && e < 0 {
+                // documented: "Panics if the precision is unlimited and the exponent is negative"
+                rec.step();
+                match &got {
+                    Err(m) if !is_internal_panic(m) => rec.hit("p0:refused-by-panic"),
+                    Err(m) => rec.fail(format!("{}|Context::powi|internal-panic|B{},p0,negative-exponent", P, B), case(), m.clone(), "the documented panic (unlimited precision, negative exponent)"),
+                    Ok(a) => rec.fail(format!("{}|Context::powi|missing-panic|B{},p0,negative-exponent", P, B), case(), format!("returned {}", fval(parts(a).0.repr()).show()), "panic (unlimited precision and negative exponent)"),
+                }
+            } else {
+                check_res::<R, B>(rec, "Context::powi", real, &case, p, xc, &got);
+            }
+        }
+    }
+    if p == 0 || v.digits <= p {
+        let fb = FBig::<R, B>::from_repr(v.repr.clone(), c);
+        let g2 = guard(|| fb.powi(ref_to_i(&BigInt::from(e))));
+        agree::<R, B>(rec, "FBig::powi", &case, &got, g2);
+    }
+}
+
+fn powi<const B: Word>(ctx: &mut Ctx, va: &[Val<B>], exps: &[i64], precs: &[usize]) {
+    let name = format!("powi.B{}", B);
+    let n = va.len() as u64 * exps.len() as u64;
+    ctx.sweep(&name, n, |i, rec| {
+        let [iv, ie] = unflatten(i, [va.len() as u64, exps.len() as u64]);
+        let (v, e) = (&va[iv], exps[ie]);
+        let real = if v.rat.is_zero() && e < 0 { None } else { Some(Real::rational(v.rat.powi(e))) };
+        for &p in precs {
+            for_all_modes!(call_powi, B, (rec, real.as_ref(), v, e, p));
+        }
+        rec.hit(match e {
+            0 => "powi:exponent-0",
+            1 => "powi:exponent-1",
+            2 | 3 => "powi:exponent-2,3",
+            _ if e < 0 => "powi:negative-exponent(inverse-at-the-end)",
+            _ if e >= 1000 => "powi:exponent>=1000",
+            _ => "powi:exponent-4..64",
+        });
+        if !v.rat.is_zero() && v.rat.abs() != Rat::from_i(1) && e != 0 && e != 1 {
+            rec.nontrivial();
+        }
+        rec.sample(|| format!("base {} powi({}e{}, {}) for p in {:?} x six modes; true value {}", B, v.s, v.e, e, precs, real.as_ref().map(|r| h11::approx(r.exact().unwrap())).unwrap_or("undefined".into())));
+    });
+    ctx.require_classes(
+        &name,
+        &["within-1ulp", "exact-value:flag-exact", "p0:refused-by-panic", "fbig-method-agrees", "powi:exponent-0", "powi:exponent-1", "powi:exponent-2,3", "powi:negative-exponent(inverse-at-the-end)", "powi:exponent>=1000", "powi:exponent-4..64"],
+    );
+}
+
+// ---------------------------------------------------------------------------------------------
+// powf
+
+fn call_powf<R: ModeTag, const B: Word>(rec: &mut Rec, real: Option<&Real>, x: &Val<B>, y: &Val<B>, p: usize) {
+    let c = Context::<R>::new(p);
+    let case = || format!("base {} p={} {}: powf({}e{}, {}e{})", B, p, R::MODE.name(), x.s, x.e, y.s, y.e);
+    let got = guard(|| c.powf(&x.repr, &y.repr));
+    let fit = p == 0 || (x.digits <= p && y.digits <= p);
+    match real {
+        None => {
+            rec.step();
+            if p == 0 {
+                match &got {
+                    Err(m) if !is_internal_panic(m) => rec.hit("p0:refused-by-panic"),
+                    _ => rec.hit("unspecified:zero-base-at-p0"),
+                }
+            } else {
+                rec.hit(if got.is_err() { "unspecified:zero-base-with-non-positive-exponent-panics" } else { "unspecified:zero-base-with-non-positive-exponent-returns" });
+            }
+        }
+        Some(real) => {
+            if p == 0 {
+                // documented: "Panics if the precision is unlimited"
+                rec.step();
+                match &got {
+                    Err(m) if !is_internal_panic(m) => rec.hit("p0:refused-by-panic"),
+                    Err(m) => rec.fail(format!("{}|Context::powf|internal-panic|B{},p0", P, B), case(), m.clone(), "the documented panic (unlimited precision)"),
+                    Ok(a) => rec.fail(format!("{}|Context::powf|missing-panic|B{},p0", P, B), case(), format!("returned {}", fval(parts(a).0.repr()).show()), "panic (unlimited precision)"),
+                }
+            } else {
+                let xc = match (fit, real.exact().is_some()) {
+                    (true, false) => "x-fit",
+                    (false, false) => "x-long",
+                    (true, true) => "x-fit,rational-power",
+                    (false, true) => "x-long,rational-power",
+                };
+                check_res::<R, B>(rec, "Context::powf", real, &case, p, xc, &got);
+            }
+        }
+    }
+    if fit && p <= 3 {
+        let (fx, fy) = (FBig::<R, B>::from_repr(x.repr.clone(), c), FBig::<R, B>::from_repr(y.repr.clone(), c));
+        let g2 = guard(|| fx.powf(&fy));
+        agree::<R, B>(rec, "FBig::powf", &case, &got, g2);
+    }
+}
+
+fn powf<const B: Word>(ctx: &mut Ctx, vx: &[Val<B>], vy: &[Val<B>], precs: &[usize]) {
+    let name = format!("powf.B{}", B);
+    let n = vx.len() as u64 * vy.len() as u64;
+    let w0 = w0_for(B as u32, precs);
+    ctx.sweep(&name, n, |i, rec| {
+        let [ix, iy] = unflatten(i, [vx.len() as u64, vy.len() as u64]);
+        let (x, y) = (&vx[ix], &vy[iy]);
+        // 0^y is defined (= 0) for y > 0 only
+        let real = if x.rat.is_zero() {
+            if y.rat.sgn() > 0 {
+                Some(Real::rational(Rat::zero()))
+            } else {
+                None
+            }
+        } else {
+            Some(Real::new(Func::Pow, x.rat.clone(), y.rat.clone(), w0))
+        };
+        for &p in precs {
+            for_all_modes!(call_powf, B, (rec, real.as_ref(), x, y, p));
+        }
+        if let Some(r) = &real {
+            if r.exact().is_some() {
+                rec.hit(if y.rat.is_int() { "powf:integer-exponent(rational-value)" } else if x.rat.is_zero() || x.rat == Rat::from_i(1) { "powf:base-0-or-1" } else { "powf:perfect-power-with-fractional-exponent(rational-value)" });
+            } else {
+                rec.hit("powf:irrational-value");
+                rec.nontrivial();
+                rec.hit(match r.deepest_level() {
+                    0 => "refine:level0",
+                    1 => "refine:level1",
+                    _ => "refine:level2+",
+                });
+            }
+            rec.hit(if y.rat.is_neg() { "powf:negative-exponent" } else { "powf:non-negative-exponent" });
+            rec.hit(match x.rat.cmp(&Rat::from_i(1)) {
+                Ordering::Less => "powf:base<1",
+                Ordering::Equal => "powf:base=1",
+                Ordering::Greater => "powf:base>1",
+            });
+        }
+        rec.sample(|| format!("base {} powf({}e{}, {}e{}) for p in {:?} x six modes; true value {}", B, x.s, x.e, y.s, y.e, precs, real.as_ref().map(|r| r.describe()).unwrap_or("undefined".into())));
+    });
+    machinery_classes(ctx, &name);
+    ctx.require_classes(
+        &name,
+        &[
+            "within-1ulp",
+            "exact-value:flag-exact",
+            "p0:refused-by-panic",
+            "fbig-method-agrees",
+            "powf:integer-exponent(rational-value)",
+            "powf:perfect-power-with-fractional-exponent(rational-value)",
+            "powf:irrational-value",
+            "powf:negative-exponent",
+            "powf:non-negative-exponent",
+            "powf:base<1",
+            "powf:base>1",
+        ],
+    );
+}
+
+// ---------------------------------------------------------------------------------------------
+// reference self-check
+
+fn self_check(ctx: &mut Ctx) {
+    let mut bad: Vec<String> = vec![];
+    // known digits (70 significant digits, computed with an independent decimal library)
+    let consts: [(&str, Func, Rat, &str); 4] = [
+        ("e", Func::Exp, Rat::from_i(1), "2718281828459045235360287471352662497757247093699959574966967627724077"),
+        ("1/e", Func::Exp, Rat::from_i(-1), "3678794411714423215955237701614608674458111310317678345078368016974615"),
+        ("ln 2", Func::Ln, Rat::from_i(2), "6931471805599453094172321214581765680755001343602552541206800094933936"),
+        ("ln 10", Func::Ln, Rat::from_i(10), "2302585092994045684017991454684364207601101488628772976033327900967573"),
+    ];
+    for (name, f, x, digits) in consts {
+        let d: BigInt = digits.parse().unwrap();
+        let lead: i64 = if name == "e" || name == "ln 10" { 1 } else { 0 };
+        // value = d * 10^(lead - 70), correctly rounded in the last digit: true value within +-1 unit
+        let lo = Rat::scaled(&(&d - 1), 10, lead - 70);
+        let hi = Rat::scaled(&(&d + 1), 10, lead - 70);
+        for w in [64u64, 200, 300] {
+            let r = Real::new(f, x.clone(), Rat::zero(), w);
+            let (elo, ehi) = r.enclosure(0);
+            // the enclosure must be consistent with the known digits and tight
+            let overlap = elo.cmp(&hi) != Ordering::Greater && ehi.cmp(&lo) != Ordering::Less;
+            let width = ehi.sub(&elo);
+            let tight = width.cmp(&Rat::scaled(&BigInt::one(), 2, -(w as i64) + 8)) == Ordering::Less;
+            let contains_at_full = w < 240 || (elo.cmp(&hi) != Ordering::Greater && lo.cmp(&ehi) != Ordering::Greater && width.cmp(&Rat::scaled(&BigInt::from(4), 10, lead - 70)) == Ordering::Less);
+            if !(overlap && tight && contains_at_full && elo.cmp(&ehi) != Ordering::Greater) {
+                bad.push(format!("{} at {} bits: [{}, {}]", name, w, h11::approx(&elo), h11::approx(&ehi)));
+            }
+        }
+    }
+    // against libm on a grid (independent implementation; 1e-13 relative agreement, enclosure well-formed)
+    let grid: Vec<Rat> = {
+        let mut g = vec![];
+        for n in -40i64..=40 {
+            g.push(Rat::new(BigInt::from(n), BigInt::from(8)));
+            g.push(Rat::new(BigInt::from(n), BigInt::from(1000)));
+            g.push(Rat::new(BigInt::from(n * 37), BigInt::from(3)));
+        }
+        g
+    };
+    let close = |lo: &Rat, hi: &Rat, want: f64| -> bool {
+        let (a, b) = (h11::to_f64(lo), h11::to_f64(hi));
+        lo.cmp(hi) != Ordering::Greater && (a - want).abs() <= 1e-13 * want.abs().max(f64::MIN_POSITIVE) && (b - want).abs() <= 1e-13 * want.abs().max(f64::MIN_POSITIVE)
+    };
+    for x in &grid {
+        let xf = h11::to_f64(x);
+        let (lo, hi) = h11::exp_enc(x, 80);
+        if !close(&lo, &hi, xf.exp()) {
+            bad.push(format!("exp({}) vs libm", x.show()));
+        }
+        let (lo, hi) = h11::expm1_enc(x, 80);
+        if !x.is_zero() && !close(&lo, &hi, xf.exp_m1()) {
+            bad.push(format!("expm1({}) vs libm", x.show()));
+        }
+        if x.sgn() > 0 && *x != Rat::from_i(1) {
+            let (lo, hi) = h11::ln_enc(x, 80);
+            if !close(&lo, &hi, xf.ln()) {
+                bad.push(format!("ln({}) vs libm", x.show()));
+            }
+            let y = Rat::new(BigInt::from(-7), BigInt::from(4));
+            let (lo, hi) = h11::pow_enc(x, &y, 80);
+            if !close(&lo, &hi, xf.powf(-1.75)) {
+                bad.push(format!("pow({}, -7/4) vs libm", x.show()));
+            }
+        }
+        if x.cmp(&Rat::from_i(-1)) == Ordering::Greater && !x.is_zero() {
+            let (lo, hi) = h11::ln1p_enc(x, 80);
+            if !close(&lo, &hi, xf.ln_1p()) {
+                bad.push(format!("ln1p({}) vs libm", x.show()));
+            }
+        }
+    }
+    // algebraic identities decided through the ExactReal interface
+    {
+        // sqrt(2) = 2^(1/2): irrational, its square encloses 2
+        let r = Real::new(Func::Pow, Rat::from_i(2), Rat::new(BigInt::one(), BigInt::from(2)), 100);
+        let (lo, hi) = r.enclosure(0);
+        if r.exact().is_some() || lo.mul(&lo).cmp(&Rat::from_i(2)) != Ordering::Less || hi.mul(&hi).cmp(&Rat::from_i(2)) != Ordering::Greater {
+            bad.push("2^(1/2)".into());
+        }
+        // (9/4)^(3/2) = 27/8 exactly; 8^(-2/3) = 1/4
+        let r = Real::new(Func::Pow, Rat::new(BigInt::from(9), BigInt::from(4)), Rat::new(BigInt::from(3), BigInt::from(2)), 100);
+        if r.exact() != Some(&Rat::new(BigInt::from(27), BigInt::from(8))) {
+            bad.push("(9/4)^(3/2)".into());
+        }
+        let r = Real::new(Func::Pow, Rat::from_i(8), Rat::new(BigInt::from(-2), BigInt::from(3)), 100);
+        if r.exact() != Some(&Rat::new(BigInt::one(), BigInt::from(4))) {
+            bad.push("8^(-2/3)".into());
+        }
+        // floor_log and comparisons of a transcendental value: e^10 = 22026.46...
+        let r = Real::new(Func::Exp, Rat::from_i(10), Rat::zero(), 64);
+        if r.floor_log(10) != 4 || r.cmp_rat(&Rat::from_i(22026)) != Ordering::Greater || r.cmp_rat(&Rat::from_i(22027)) != Ordering::Less || r.floor_log(2) != 14 {
+            bad.push("e^10".into());
+        }
+        // refinement: with 8-bit first-level enclosures, e vs 2.718281828459045 (16 digits) needs >= 3 doublings
+        let r = Real::new(Func::Exp, Rat::from_i(1), Rat::zero(), 8);
+        let q = Rat::scaled(&BigInt::from(2718281828459045u64), 10, -15);
+        let q1 = Rat::scaled(&BigInt::from(2718281828459046u64), 10, -15);
+        if r.cmp_rat(&q) != Ordering::Greater || r.cmp_rat(&q1) != Ordering::Less || r.deepest_level() < 3 || r.undecided() {
+            bad.push("refinement of e".into());
+        }
+        // ln(1 - 10^-6) = -1.0000005000003333e-6
+        let r = Real::new(Func::Ln1p, Rat::scaled(&BigInt::from(-1), 10, -6), Rat::zero(), 64);
+        if r.floor_log(10) != -6 || r.cmp_rat(&Rat::scaled(&BigInt::from(-10000005), 10, -13)) != Ordering::Less || r.cmp_rat(&Rat::scaled(&BigInt::from(-10000006), 10, -13)) != Ordering::Greater {
+            bad.push("ln(1-1e-6)".into());
+        }
+        // tiny and huge arguments keep relative accuracy: expm1(10^-1000) = 10^-1000 (1 + 5e-1001 + ...)
+        let t = Rat::scaled(&BigInt::one(), 10, -1000);
+        let r = Real::new(Func::Expm1, t.clone(), Rat::zero(), 64);
+        let (lo, hi) = r.enclosure(0);
+        let t2 = t.add(&t.mul(&t).half()); // t + t^2/2 < expm1(t)
+        if lo.cmp(&t2) != Ordering::Less || hi.cmp(&t2) != Ordering::Greater || hi.sub(&lo).cmp(&Rat::scaled(&BigInt::one(), 10, -1015)) != Ordering::Less {
+            bad.push("expm1(1e-1000)".into());
+        }
+        // the judge itself: 1/3 at p = 2 base 10
+        let third = Real::rational(Rat::new(BigInt::one(), BigInt::from(3)));
+        let mut rec = Rec::new("self-check");
+        let j = |s: i64, e: i64, fl: Flag, rec: &mut Rec| judge11(&third, &FVal { sig: BigInt::from(s), exp: e, base: 10 }, fl, 2, Mode::Zero, rec);
+        let ok = j(33, -2, Flag::Inexact(Rounding::NoOp), &mut rec).is_empty()
+            && j(34, -2, Flag::Inexact(Rounding::AddOne), &mut rec).is_empty()
+            && j(35, -2, Flag::Inexact(Rounding::AddOne), &mut rec).iter().any(|e| e.0 == "error>=1ulp" && e.1 == "[1.5,2)ulp")
+            && j(32, -2, Flag::Inexact(Rounding::NoOp), &mut rec).iter().any(|e| e.0 == "error>=1ulp" && e.1 == "[1,1.5)ulp")
+            && j(36, -2, Flag::Inexact(Rounding::NoOp), &mut rec).iter().any(|e| e.0 == "error>=1ulp" && e.1 == ">=2ulp")
+            && j(33, -2, Flag::Exact, &mut rec).iter().any(|e| e.0 == "flag-exact-but-inexact")
+            && j(3333, -4, Flag::Inexact(Rounding::NoOp), &mut rec).iter().any(|e| e.0 == "too-many-digits");
+        if !ok {
+            bad.push("judge11 on 1/3".into());
+        }
+    }
+    if !bad.is_empty() {
+        ctx.machinery(format!("refreal self-check failed: {}", bad.join("; ")));
+    }
+}
+
+// ---------------------------------------------------------------------------------------------
+
+struct Plan {
+    /// F(B, fp, fe) of the transcendental sweep, values next to 0 and 1 up to B^-near
+    fp: u32,
+    fe: i64,
+    near: i64,
+    precs: Vec<usize>,
+    /// powi bases F(B, ip, ie)
+    ip: u32,
+    ie: i64,
+    /// powf: x in F(B, xp, xe) (x >= 0), y in F(B, yp, ye)
+    xp: u32,
+    xe: i64,
+    yp: u32,
+    ye: i64,
+    /// add a few two-digit exponents (1.1, 1.5, 2.5, B^2-1 at three scales, ...) to a one-digit y universe
+    y_extra: bool,
+    powf_precs: Vec<usize>,
+}
+
+fn base_run<const B: Word>(ctx: &mut Ctx, pl: &Plan) {
+    let base = B as u32;
+    // exp, exp_m1, ln, ln_1p
+    let va = vals::<B>(&x_universe(base, pl.fp, pl.fe, pl.near), "");
+    ctx.bound(&format!("B{}.transc.values", B), va.len() as u64);
+    transc::<B>(ctx, &format!("transc.B{}", B), &va, &pl.precs, &REQ_TRANSC);
+    if !ctx.quick() {
+        // large precisions on a subset: F(B,1,1) + values next to 0 and 1 (k = 1, near) + large
+        let mut u = f_universe(base, 1, 1);
+        for k in [1, pl.near] {
+            let bk = pow_b(base, k as u64);
+            u.extend([(BigInt::one(), -k), (-BigInt::one(), -k), (&bk + 1, -k), (&bk - 1, -k), (BigInt::one() - &bk, -k)]);
+        }
+        for j in 1..=2 {
+            for d in [1, 2, 9] {
+                u.push((BigInt::from(d), j));
+                u.push((BigInt::from(-d), j));
+            }
+        }
+        let vs = vals::<B>(&u, "");
+        ctx.bound(&format!("B{}.transc-large-p.values", B), vs.len() as u64);
+        transc::<B>(ctx, &format!("transc-large-p.B{}", B), &vs, &[64, 100, 200, 500], &["within-1ulp", "exact-value:flag-exact", "arg:x-fit", "fbig-method-agrees"]);
+    }
+    let ep: Vec<usize> = if ctx.quick() { vec![1, 3, 8, 33] } else { vec![1, 2, 3, 5, 8, 16, 33, 100] };
+    extreme::<B>(ctx, &ep);
+    // powi
+    let vi = vals::<B>(&f_universe(base, pl.ip, pl.ie), "");
+    let mut exps: Vec<i64> = (-12..=12).collect();
+    exps.extend([63, -63, 64, -64, 1000, -1000]);
+    let mut ipr = vec![0usize];
+    ipr.extend(&pl.precs);
+    ipr.dedup();
+    ctx.bound(&format!("B{}.powi.bases", B), vi.len() as u64);
+    powi::<B>(ctx, &vi, &exps, &ipr);
+    // powf
+    let vx: Vec<Val<B>> = vals::<B>(&f_universe(base, pl.xp, pl.xe), "").into_iter().filter(|v| !v.rat.is_neg()).collect();
+    let mut uy = f_universe(base, pl.yp, pl.ye);
+    if pl.y_extra {
+        let b = base as i64;
+        for (sg, e) in [(b + 1, -1i64), (b + b / 2, -1), (2 * b + b / 2, -1), (b * b - 1, -1), (b + 2, 0), (b * b - 1, 0), (b * b - 1, 1)] {
+            uy.push((BigInt::from(sg), e));
+            uy.push((BigInt::from(-sg), e));
+        }
+    }
+    let vy = vals::<B>(&uy, "");
+    ctx.bound(&format!("B{}.powf.x", B), vx.len() as u64);
+    ctx.bound(&format!("B{}.powf.y", B), vy.len() as u64);
+    powf::<B>(ctx, &vx, &vy, &pl.powf_precs);
+}
 
 pub fn run(ctx: &mut Ctx) {
-    ctx.machinery("check C11 is not built yet");
+    ctx.rule = "per base B: (1) every x of X(B) = F(B,P,E) ∪ {±B^-k, 1±B^-k, -1+B^-k : k<=6 (12 for base 2, thorough)} ∪ {±d·B^j : d=1..9, j=1,2} (F(B,P,E) = all s·B^e, |s|<B^P, |e|<=E) in the domain of the function × {exp, exp_m1, ln, ln_1p} × every precision of the list (0 = unlimited included) × six rounding modes, through Context::f and (when x fits p) FBig::f; (2) the same for a list of tiny (down to B^-1000) and huge (up to 10^6; B^1000 for ln) arguments; (3) powi: every base of F(B,2,2) × exponents -12..12, ±63, ±64, ±1000 × precisions × modes; (4) powf: every (x >= 0, y) of F × F × precisions × modes. Each (value, flag) is judged by: |r - true| < ulp_p(true) with ulp_p(t) = B^(floor(log_B|t|) - p + 1); flag Exact only if r = true; at most p+1 digits; precision 0 must panic (or be exact). The true value is a rational (powi, rational powers, f(0), ln 1) or is enclosed by exact fractions refined until every comparison is decided. non-trivial = true value irrational (powi: base not 0/±1, exponent not 0/1)".into();
+    ctx.assume("exp(x), exp_m1(x) for rational x != 0 and ln(x), ln_1p(x-1) for positive rational x != 1 are transcendental (Lindemann–Weierstrass), x^(a/b) is irrational unless x is a perfect b-th power: such values never equal a float, so refinement of the enclosures always decides the comparisons");
+    ctx.assume("enclosures: fixed-point interval arithmetic on num_bigint::BigInt with outward rounding, Maclaurin series of (e^t-1)/t for |t|<=1/2 and of atanh(z)/z for |z|<=1/3 with explicit remainder bounds, ln 2 = 2 atanh(1/3); checked at start against 70 known digits of e, 1/e, ln 2, ln 10 and against libm on a grid");
+    ctx.assume("the direction of AddOne/SubOne and correct rounding are not demanded by the property: they are only counted (classes unspecified:* and info:*); operands with more digits than the precision are judged too (class x-long in the signature) because the statement quantifies over every finite argument; domain errors (ln x<=0, ln_1p x<=-1) belong to C16 and are skipped");
+    self_check(ctx);
+    let quick = ctx.quick();
+    // exp of arguments around 10^5..10^6 costs seconds per case (Mbit enclosures); the machine is shared
+    ctx.case_horizon = std::time::Duration::from_secs(if quick { 30 } else { 600 });
+    let precs: Vec<usize> = if quick { vec![0, 1, 2, 3, 4, 5, 8, 16, 33] } else { vec![0, 1, 2, 3, 4, 5, 7, 8, 10, 16, 32, 33] };
+    let pf: Vec<usize> = if quick { vec![0, 1, 2, 3, 5, 16] } else { vec![0, 1, 2, 3, 4, 5, 8, 16, 33] };
+    ctx.bound("precisions", serde_json::json!(precs));
+    ctx.bound("precisions.large(thorough, subset)", serde_json::json!(if quick { vec![] } else { vec![64, 100, 200, 500] }));
+    ctx.bound("precisions.powf", serde_json::json!(pf));
+    ctx.bound("modes", 6);
+    ctx.bound("bases", serde_json::json!(if quick { vec![2, 10] } else { vec![2, 10, 3, 16, 36] }));
+    ctx.bound("enclosure.refinement-levels", h11::MAX_LEVEL as u64);
+    // base 2: two binary digits are too few to be interesting, use 5 (quick) / 6 digits
+    let p2 = if quick {
+        Plan { fp: 5, fe: 4, near: 6, precs: precs.clone(), ip: 4, ie: 2, xp: 4, xe: 2, yp: 4, ye: 2, y_extra: false, powf_precs: pf.clone() }
+    } else {
+        Plan { fp: 6, fe: 6, near: 12, precs: precs.clone(), ip: 5, ie: 3, xp: 5, xe: 3, yp: 5, ye: 3, y_extra: false, powf_precs: pf.clone() }
+    };
+    base_run::<2>(ctx, &p2);
+    let p10 = if quick {
+        Plan { fp: 2, fe: 3, near: 6, precs: precs.clone(), ip: 2, ie: 2, xp: 1, xe: 1, yp: 1, ye: 1, y_extra: true, powf_precs: pf.clone() }
+    } else {
+        Plan { fp: 2, fe: 3, near: 6, precs: precs.clone(), ip: 2, ie: 2, xp: 2, xe: 1, yp: 2, ye: 1, y_extra: false, powf_precs: pf.clone() }
+    };
+    base_run::<10>(ctx, &p10);
+    if !quick {
+        let p3 = Plan { fp: 3, fe: 3, near: 6, precs: precs.clone(), ip: 2, ie: 2, xp: 2, xe: 1, yp: 2, ye: 1, y_extra: false, powf_precs: pf.clone() };
+        base_run::<3>(ctx, &p3);
+        // exponent range 2 instead of 3 for the large bases: 255*16^3 ~ 10^6 makes every exp enclosure a 1.5 Mbit number
+        let p16 = Plan { fp: 2, fe: 2, near: 6, precs: precs.clone(), ip: 2, ie: 2, xp: 1, xe: 1, yp: 1, ye: 1, y_extra: true, powf_precs: pf.clone() };
+        base_run::<16>(ctx, &p16);
+        let p36 = Plan { fp: 1, fe: 2, near: 6, precs: precs.clone(), ip: 1, ie: 2, xp: 1, xe: 1, yp: 1, ye: 1, y_extra: true, powf_precs: pf.clone() };
+        base_run::<36>(ctx, &p36);
+    }
 }
